@@ -233,7 +233,7 @@ func TestVerifC07Large(t *testing.T) {
 	r.Rule("structured large pairs with the shipped constants (PageSize 512, 1024 IBLT buckets): one side 1300 behind; disjoint branches of 600 " +
 		"(symmetric difference 1200 > one IBLT decodes); equal clocks with a 3-transaction difference in the first of three pages; fork after 600 with 450 on each side. " +
 		"Each is run along the fair schedule (expire, tick A, tick B, deliver FIFO) once without deviation and then once per (delivery position, deviation kind) " +
-		"with kinds drop, dup-now, dup-late, dup-stale, reorder, delay (to the next round, past the conversation validity), lexpire (quick tier: without dup-now and reorder, the last two pairs also without dup-late); thorough adds, for the first two pairs, all pairs of " +
+		"with kinds drop, dup-now, dup-late, dup-stale, reorder, delay (to the next round, past the conversation validity), lexpire (quick tier: drop, dup-stale, delay, lexpire; the last pair drop and lexpire only); thorough adds, for the first two pairs, all pairs of " +
 		"{drop, dup-stale, lexpire} deviations. A case is (pair, deviations).")
 	r.Bound("large_pairs", len(pairs))
 	r.Bound("R_max_allowed_large", rmax)
@@ -283,9 +283,9 @@ func TestVerifC07Large(t *testing.T) {
 		}
 		kinds := vc07DevKinds
 		if !r.Thorough() {
-			kinds = []string{"drop", "dup-late", "dup-stale", "delay", "lexpire"}
-			if pi >= 2 {
-				kinds = []string{"drop", "dup-stale", "delay", "lexpire"}
+			kinds = []string{"drop", "dup-stale", "delay", "lexpire"}
+			if pi == 3 {
+				kinds = []string{"drop", "lexpire"}
 			}
 		}
 		r.Bound("kinds_"+p.Name, kinds)
